@@ -471,18 +471,303 @@ Qed.
 
 (** in particular: a value is returned for one representation iff it is for
     the other, and ErrKeyNotFound likewise *)
+Lemma out_rel_verdict r1 r2 :
+  out_rel r1 r2 ->
+  (forall v1, r1 = Ok v1 -> exists v2, r2 = Ok v2 /\ absx v1 = absx v2) /\
+  (r1 = Err EKeyNotFound -> r2 = Err EKeyNotFound).
+Proof.
+  unfold out_rel. intros H. split.
+  - intros v1 E. subst r1. destruct r2 as [v2|[|t2]|m2| |w2]; try contradiction.
+    exists v2. split; [reflexivity | exact H].
+  - intros E. subst r1. destruct r2 as [v2|[|t2]|m2| |w2]; try contradiction. reflexivity.
+Qed.
+
 Corollary C10_same_verdict : forall eng t g1 g2,
   frag st pt uni default_fuel (NTop t) = true ->
   supported g1 -> supported g2 -> absx g1 = absx g2 ->
   (forall v1, do_top uni eng t g1 = Ok v1 -> exists v2, do_top uni eng t g2 = Ok v2 /\ absx v1 = absx v2) /\
   (do_top uni eng t g1 = Err EKeyNotFound -> do_top uni eng t g2 = Err EKeyNotFound).
 Proof.
-  intros eng t g1 g2 Hf S1 S2 Ha. pose proof (C10_do_top eng t g1 g2 Hf S1 S2 Ha) as H. unfold out_rel in H.
-  remember (do_top uni eng t g1) as r1 eqn:E1. remember (do_top uni eng t g2) as r2 eqn:E2. clear E1 E2.
-  split.
-  - intros v1 E. subst r1. destruct r2 as [v2|[|t2]|m2| |w2]; try contradiction.
-    exists v2. split; [reflexivity | exact H].
-  - intros E. subst r1. destruct r2 as [v2|[|t2]|m2| |w2]; try contradiction. reflexivity.
+  intros eng t g1 g2 Hf S1 S2 Ha.
+  exact (out_rel_verdict _ _ (C10_do_top eng t g1 g2 Hf S1 S2 Ha)).
 Qed.
 
 End Mode.
+
+(** * The two instances of interest *)
+
+(** (A) objects as maps OR structs, keys up to letter case, the document
+    possibly handed over by pointer: the functions of [common_funcs]. *)
+Definition C10_structs_and_pointers := C10_carrier_independent true true.
+(** (B) objects as maps only (any key and value type tags, named-string and
+    interface keys), keys exact, no pointer: additionally AsArray, Sum,
+    Minimum, Maximum, RemoveKeysBy*, and Select with a literal sub-query. *)
+Definition C10_maps_only := C10_carrier_independent false false.
+
+(** * Examples *)
+Definition run (q : string) (g : gv) : option (outcome gv) :=
+  match parse_string uni_ascii (bs q) with Ok t => Some (do_top uni_ascii no_engines t g) | _ => None end.
+Definition qfrag (st pt : bool) (q : string) : bool :=
+  match parse_string uni_ascii (bs q) with Ok t => frag st pt uni_ascii default_fuel (NTop t) | _ => false end.
+Definition oabs (st : bool) (o : option (outcome gv)) : option (outcome jv) :=
+  match o with
+  | Some (Ok v) => Some (Ok (absx st v))
+  | Some (Err e) => Some (Err (match e with EKeyNotFound => EKeyNotFound | EOther _ => EOther "" end))
+  | Some (Panic _) => Some (Panic "")
+  | Some OutOfFuel => Some OutOfFuel
+  | Some (Declined _) => Some (Declined "")
+  | None => None
+  end.
+
+Definition K (s : string) : gv := VStr false (bs s).
+Definition F (z : Z) : gv := VFloat false false (FFin (mkDec z 0)).
+Definition M (kvs : list (gv * gv)) : gv := VMap KtStr EAny false kvs.
+Definition A (xs : list gv) : gv := VSlice EAny false xs.
+Definition fld (n : string) (v : gv) : str * bool * bool * gv := (bs n, true, false, v).
+
+Ltac sup_go :=
+  lazymatch goal with
+  | |- sup _ VNil => apply sup_nil
+  | |- sup _ (VBool false _) => apply sup_bool
+  | |- sup _ (VStr false _) => apply sup_str
+  | |- sup _ (VInt _ _ _) => apply sup_int
+  | |- sup _ (VFloat _ _ _) => apply sup_float
+  | |- sup _ (VSlice _ _ _) => apply sup_slice; sup_go
+  | |- sup _ (VArray _ _) => apply sup_array; sup_go
+  | |- sup _ (VMap _ _ _ _) => apply sup_map; sup_go
+  | |- sup _ (VStruct _) => apply sup_struct; sup_go
+  | |- sup _ _ => progress unfold K, F, M, A; sup_go
+  | |- Forall _ [] => constructor
+  | |- Forall _ (_ :: _) => constructor; cbn [fst snd]; sup_go
+  | |- _ /\ _ => split; sup_go
+  | |- _ \/ _ => first [solve [left; sup_go] | solve [right; sup_go]]
+  | |- false = true -> _ => let H := fresh in intros H; discriminate H
+  | |- _ -> _ => intros; sup_go
+  | |- _ <> _ => vm_compute; discriminate
+  | |- nn _ => first [exact I | vm_compute; reflexivity]
+  | |- arr_ok _ => first [exact I | vm_compute; reflexivity]
+  | |- True => exact I
+  | |- _ = _ => vm_compute; reflexivity
+  end.
+
+(** one document, as encoding/json decodes it ... *)
+Definition doc_json : gv :=
+  M [(K "items", A [M [(K "name", K "bolt"); (K "qty", F 2); (K "tags", A [K "a"; K "b"])];
+                    M [(K "name", K "nut"); (K "qty", F 5); (K "tags", A [])]]);
+     (K "rate", VFloat false false (FFin (mkDec 15 (-1))));
+     (K "ok", VBool false true);
+     (K "note", VNil)].
+
+(** ... and as Go structs with typed slices, a named integer type, a decimal
+    and an int8, handed over by pointer *)
+Definition item (name : string) (qty : Z) (tags : list gv) : gv :=
+  VStruct [fld "Name" (K name); fld "Qty" (VInt KInt32 true qty); fld "Tags" (VSlice EStr false tags);
+           (bs "cache", false, false, VInt KInt false 7)].
+Definition doc_go : gv :=
+  VPtr (Some (VStruct [fld "Items" (VSlice ETOther false [item "bolt" 2 [K "a"; K "b"]; item "nut" 5 []]);
+                       fld "Rate" (VDec (mkDec 150 (-2)));
+                       fld "OK" (VBool false true);
+                       (bs "Note", true, true, VNil)])).
+
+Example C10_example_docs :
+  supported true true doc_json /\ supported true true doc_go /\ absx true doc_json = absx true doc_go.
+Proof.
+  split; [left; unfold doc_json; sup_go|].
+  split; [|vm_compute; reflexivity].
+  right. split; [reflexivity|]. eexists. split; [reflexivity|]. split; [unfold item, fld; sup_go|]. split; [reflexivity | exact I].
+Qed.
+
+(** the queries below are in the fragment of mode (A); the two renderings
+    give the same answers (computed), as the theorem says they must *)
+Definition example_queries : list string :=
+  ["$.items[@.qty.GreaterOrEqual(5)].name.First()"; "$.ITEMS.Count()"; "$.rate.Multiply(2)";
+   "$.items[AND,@.tags.Count().Greater(0),@.name.Prefix(""b"")].qty"; "$.items[OR,@.qty.Less(1),{AND,@.qty.Equal(5),$.ok}].name"; "$.items.tags.Any()";
+   "$.note?.x"; "$.missing"; "$.items.Last().tags.IsEmpty()";
+   "$.items[@.qty.AnyOf(1,2,3)].name.Index(0).Left(2)"; "$.ok.Not()"; "$.rate.Divide(4).Modulo(1)";
+   "$.items.qty.First().Equal($.items[@.name.Equal(""bolt"")].qty.First())"]%string.
+
+Example C10_example_queries :
+  forallb (qfrag true true) example_queries = true /\
+  map (fun q => oabs true (run q doc_json)) example_queries
+  = map (fun q => oabs true (run q doc_go)) example_queries.
+Proof. split; vm_compute; reflexivity. Qed.
+
+(** ... and by the theorem, without running the second evaluation *)
+Example C10_example_by_theorem : forall eng t,
+  frag true true uni_ascii default_fuel (NTop t) = true ->
+  out_rel true (do_top uni_ascii eng t doc_json) (do_top uni_ascii eng t doc_go).
+Proof.
+  intros eng t Hf. destruct C10_example_docs as [S1 [S2 Ha]].
+  exact (C10_do_top true true uni_ascii eng t doc_json doc_go Hf S1 S2 Ha).
+Qed.
+
+(** mode (B): a JSON object against a typed Go map with a named string key
+    type; Select, Sum, Average, RemoveKeysByPrefix are admitted *)
+Definition prices_json : gv := M [(K "apple", F 3); (K "pear", F 4); (K "fig", F 5)].
+Definition prices_go : gv :=
+  VMap KtNamedStr EInt false [(VStr true (bs "apple"), VInt KInt false 3); (VStr true (bs "pear"), VInt KUint8 false 4);
+                              (VStr true (bs "fig"), VInt KInt64 true 5)].
+Definition map_queries : list string :=
+  ["$.Sum()"; "$.Average()"; "$.Maximum(10)"; "$.RemoveKeysByPrefix(""p"").Sum(1)";
+   "$.Select(""$.Multiply(2)"")"; "$.Select(""$[@.Greater(3)]"").Count()"; "$.apple.AsArray().Sum($.pear)"]%string.
+
+Example C10_example_maps :
+  supported false false prices_json /\ supported false false prices_go /\
+  absx false prices_json = absx false prices_go /\
+  forallb (qfrag false false) map_queries = true /\
+  map (fun q => oabs false (run q prices_json)) map_queries
+  = map (fun q => oabs false (run q prices_go)) map_queries.
+Proof.
+  split; [left; unfold prices_json; sup_go|].
+  split; [left; unfold prices_go; sup_go|].
+  repeat split; vm_compute; reflexivity.
+Qed.
+
+(** * Carrier-dependences of the model: what [supported] and [in_fragment]
+    must exclude.  Each example gives two renderings with the same
+    abstraction and a query on which the answers differ. *)
+Definition P (x : gv) : gv := VPtr (Some x).
+Definition D (z : Z) : gv := VDec (mkDec z 0).
+
+Definition differs (st : bool) (q : string) (d1 d2 : gv) (r1 r2 : outcome jv) : Prop :=
+  absx st d1 = absx st d2 /\ oabs st (run q d1) = Some r1 /\ oabs st (run q d2) = Some r2.
+
+Ltac differ := unfold differs; repeat split; vm_compute; reflexivity.
+
+Definition n1 : jv := JNum (mkDec 1 0).
+Definition n0 : jv := JNum (mkDec 0 0).
+Definition eo : outcome jv := Err (EOther "").
+
+(** ** known: named string / bool types; a pointer inside an interface slot *)
+Example named_string_refuted :
+  differs true "$.a.Equal(""x"")" (M [(K "a", VStr true (bs "x"))]) (M [(K "a", K "x")]) (Ok (JBool false)) (Ok (JBool true)).
+Proof. differ. Qed.
+Example named_bool_refuted :
+  differs true "$.a.Not()" (M [(K "a", VBool true true)]) (M [(K "a", VBool false true)]) eo (Ok (JBool false)).
+Proof. differ. Qed.
+Example ptr_in_interface_slot_refuted :
+  differs true "$.a" (A [P (M [(K "a", F 1)])]) (A [M [(K "a", F 1)]]) (Err EKeyNotFound) (Ok (JArr [n1])).
+Proof. differ. Qed.
+
+(** ** pointers: only a pointer to a non-empty object handed to the
+    evaluator, or a pointer to an int/float in a field, is transparent *)
+(** a typed slice of pointers: the filter re-boxes the elements as []any *)
+Example ptr_elements_after_filter_refuted :
+  differs true "$[@.a.Equal(1)].a" (VSlice ETOther false [P (M [(K "a", F 1)])]) (VSlice ETOther false [M [(K "a", F 1)]])
+          (Err EKeyNotFound) (Ok (JArr [n1])).
+Proof. differ. Qed.
+(** a pointer field of the elements of an array: the projection boxes it *)
+Example ptr_field_projection_refuted :
+  differs true "$.items.child.name"
+          (M [(K "items", A [M [(K "child", P (M [(K "name", K "x")]))]])])
+          (M [(K "items", A [M [(K "child", M [(K "name", K "x")])]])])
+          (Err EKeyNotFound) (Ok (JArr [JStr (bs "x")])).
+Proof. differ. Qed.
+Example ptr_to_string_refuted :
+  differs true "$.a.Equal(""x"")" (M [(K "a", P (K "x"))]) (M [(K "a", K "x")]) (Ok (JBool false)) (Ok (JBool true)).
+Proof. differ. Qed.
+Example ptr_to_decimal_refuted :
+  differs true "$.a.Equal(1)" (M [(K "a", P (D 1))]) (M [(K "a", D 1)]) (Ok (JBool false)) (Ok (JBool true)).
+Proof. differ. Qed.
+Example ptr_to_slice_sum_refuted :
+  differs false "$.a.Sum()" (M [(K "a", P (A [F 1]))]) (M [(K "a", A [F 1])]) (Ok n0) (Ok n1).
+Proof. differ. Qed.
+Example ptr_to_slice_argument_refuted :
+  differs true "$.b.AnyOf($.a)" (M [(K "a", P (A [F 1])); (K "b", F 1)]) (M [(K "a", A [F 1]); (K "b", F 1)]) eo (Ok (JBool true)).
+Proof. differ. Qed.
+Example ptr_to_map_sum_refuted :
+  differs false "$.a.Sum()" (M [(K "a", P (M [(K "x", F 1)]))]) (M [(K "a", M [(K "x", F 1)])]) (Ok n0) (Ok n1).
+Proof. differ. Qed.
+Example ptr_to_empty_map_refuted :
+  differs true "$.a.First()" (M [(K "a", P (M []))]) (M [(K "a", M [])]) eo (Ok n0).
+Proof. differ. Qed.
+Example nil_ptr_vs_nil_refuted :
+  differs true "$.a.First()" (M [(K "a", VPtr None)]) (M [(K "a", VNil)]) (Ok n0) eo.
+Proof. differ. Qed.
+(** AsArray boxes its receiver: excluded when the document may come by pointer *)
+Example asarray_of_pointer_refuted :
+  differs true "$.AsArray().a" (P (M [(K "a", F 1)])) (M [(K "a", F 1)]) (Err EKeyNotFound) (Ok (JArr [n1])).
+Proof. differ. Qed.
+
+(** ** structs against maps *)
+Example empty_struct_refuted :
+  differs true "$.a.First()" (M [(K "a", VStruct [])]) (M [(K "a", M [])]) eo (Ok n0).
+Proof. differ. Qed.
+Example zero_struct_any_refuted :
+  differs true "$.Any()" (VStruct [fld "A" (F 0)]) (M [(K "a", F 0)]) (Ok (JBool true)) (Ok (JBool false)).
+Proof. differ. Qed.
+Example zero_struct_isempty_refuted :
+  differs true "$.IsEmpty()" (VStruct [fld "A" (F 0)]) (M [(K "a", F 0)]) (Ok (JBool true)) (Ok (JBool false)).
+Proof. differ. Qed.
+Example struct_sum_refuted :
+  differs true "$.Sum()" (VStruct [fld "A" (F 1)]) (M [(K "a", F 1)]) (Ok n0) (Ok n1).
+Proof. differ. Qed.
+Example struct_select_refuted :
+  differs true "$.Select(""$"")" (VStruct [fld "A" (F 1)]) (M [(K "a", F 1)]) eo (Ok (JArr [n1])).
+Proof. differ. Qed.
+Example struct_remove_keys_refuted :
+  differs true "$.RemoveKeysByPrefix(""b"")" (VStruct [fld "A" (F 1)]) (M [(K "a", F 1)]) eo (Ok (JObj [(bs "a", n1)])).
+Proof. differ. Qed.
+(** a string spelling a number, projected out of an array of structs / of maps *)
+Example numeral_string_projection_refuted :
+  differs true "$.a" (A [VStruct [fld "A" (K "12")]]) (A [M [(K "a", K "12")]])
+          (Ok (JArr [JStr (bs "12")])) (Ok (JArr [JNum (mkDec 12 0)])).
+Proof. differ. Qed.
+(** with keys compared up to case: Select orders by the raw key, RemoveKeysBy* tests it *)
+Example select_key_case_refuted :
+  differs true "$.Select(""$"")" (M [(K "a", F 1); (K "B", F 2)]) (M [(K "A", F 1); (K "b", F 2)])
+          (Ok (JArr [JNum (mkDec 2 0); n1])) (Ok (JArr [n1; JNum (mkDec 2 0)])).
+Proof. differ. Qed.
+Example remove_keys_case_refuted :
+  differs true "$.RemoveKeysByPrefix(""a"")" (M [(K "a", F 1)]) (M [(K "A", F 1)]) (Ok (JObj [])) (Ok (JObj [(bs "a", n1)])).
+Proof. differ. Qed.
+
+(** ** decimal.Decimal where the evaluator sees it unconverted (an element, the root) *)
+Example decimal_element_filter_refuted :
+  differs true "$[@[@.Greater(0)].IsNotNull()]" (A [D 1]) (A [F 1]) (Ok (JArr [n1])) eo.
+Proof. differ. Qed.
+
+(** ** nil containers, Go arrays *)
+Example nil_slice_refuted :
+  differs true "$.a.b" (M [(K "a", VSlice EAny true [])]) (M [(K "a", A [])]) eo (Err EKeyNotFound).
+Proof. differ. Qed.
+Example nil_map_refuted :
+  differs true "$.a.IsNull()" (M [(K "a", VMap KtStr EAny true [])]) (M [(K "a", M [])]) (Ok (JBool true)) (Ok (JBool false)).
+Proof. differ. Qed.
+Example zero_array_isempty_refuted :
+  differs true "$.a.IsEmpty()" (M [(K "a", VArray EInt [VInt KInt false 0; VInt KInt false 0])])
+          (M [(K "a", VSlice EInt false [VInt KInt false 0; VInt KInt false 0])]) (Ok (JBool true)) (Ok (JBool false)).
+Proof. differ. Qed.
+
+(** the queries of these examples that the fragment of the matching mode
+    admits (so the exclusion has to be, and is, in [supported]) ... *)
+Example refuted_in_fragment :
+  forallb (qfrag true true)
+    ["$.a.Equal(""x"")"; "$.a.Not()"; "$.a"; "$[@.a.Equal(1)].a"; "$.items.child.name"; "$.a.Equal(1)";
+     "$.b.AnyOf($.a)"; "$.a.First()"; "$.Any()"; "$.IsEmpty()"; "$[@[@.Greater(0)].IsNotNull()]"; "$.a.b";
+     "$.a.IsNull()"; "$.a.IsEmpty()"]%string = true /\
+  forallb (qfrag false true) ["$.a.Sum()"; "$.AsArray().a"]%string = false /\
+  forallb (fun q => negb (qfrag true false q))
+    ["$.Sum()"; "$.Select(""$"")"; "$.RemoveKeysByPrefix(""b"")"]%string = true /\
+  forallb (qfrag false false) ["$.a.Sum()"; "$.AsArray().a"; "$.Sum()"; "$.Select(""$"")"; "$.RemoveKeysByPrefix(""b"")"]%string = true.
+Proof. repeat split; vm_compute; reflexivity. Qed.
+
+(** ... and the functions outside every fragment: AsJSON, Sprintf and the
+    Parse* family render or read carrier text by design *)
+Example never_admitted :
+  forallb (fun k => negb (allowed false false k) && negb (allowed true true k))
+    ["AsJSON"; "Sprintf"; "ParseJSON"; "ParseXML"; "ParseYAML"; "ParseTOML"]%string = true.
+Proof. vm_compute. reflexivity. Qed.
+
+Print Assumptions C10_relational.
+Print Assumptions C10_carrier_independent_fuel.
+Print Assumptions C10_carrier_independent.
+Print Assumptions C10_do_top.
+Print Assumptions C10_same_verdict.
+Print Assumptions C10_structs_and_pointers.
+Print Assumptions C10_maps_only.
+Print Assumptions R_abs.
+Print Assumptions supported_Rv.
+Print Assumptions C10_example_queries.
+Print Assumptions C10_example_by_theorem.
+Print Assumptions C10_example_maps.
